@@ -42,6 +42,34 @@ type Request struct {
 	Method  string `json:"method"`
 	Params  any    `json:"params,omitempty"`
 	ID      any    `json:"id,omitempty"`
+
+	// nullID is set when the request carries an explicit `"id": null`: such a request is not a
+	// notification (a notification has no id member at all) and is answered with id null.
+	nullID bool
+}
+
+// idNotSet is what ID holds before a request is decoded: encoding/json overwrites it with the value of
+// the id member, or with nil for an explicit null, and leaves it alone when there is no id member.
+type idNotSet struct{}
+
+// newRequest returns the decode target for one request.
+func newRequest() *Request {
+	return &Request{ID: idNotSet{}}
+}
+
+// settleID tells an explicit `"id": null` from a missing id member after decoding.
+func (r *Request) settleID() {
+	switch r.ID.(type) {
+	case idNotSet:
+		r.ID = nil
+	case nil:
+		r.nullID = true
+	}
+}
+
+// isNotification reports whether the request has no id member: the server must not reply to it.
+func (r *Request) isNotification() bool {
+	return r.ID == nil && !r.nullID
 }
 
 // MarshalLogObject implements [zapcore.ObjectMarshaler].
@@ -374,8 +402,10 @@ func (s *Server) HandleReader(ctx context.Context, reader io.Reader) ([]byte, ht
 	dec.UseNumber()
 
 	if !requestIsBatch {
-		req := new(Request)
-		if jsonErr := dec.Decode(req); jsonErr != nil {
+		req := newRequest()
+		jsonErr := dec.Decode(req)
+		req.settleID()
+		if jsonErr != nil {
 			resp = new(errResponse(InvalidJSON, prettyParseError(&errorRecoverBuffer, jsonErr)))
 		} else if resObject, httpHeader, handleErr := s.handleRequest(ctx, req); handleErr != nil {
 			resp = new(errResponse(InvalidRequest, handleErr.Error()))
@@ -453,8 +483,10 @@ func (s *Server) handleBatchRequest(ctx context.Context, batchReq []json.RawMess
 		reqDec := json.NewDecoder(bytes.NewBuffer(rawReq))
 		reqDec.UseNumber()
 
-		req := new(Request)
-		if err := reqDec.Decode(req); err != nil {
+		req := newRequest()
+		err := reqDec.Decode(req)
+		req.settleID()
+		if err != nil {
 			addResponse(new(errResponse(InvalidRequest, err.Error())), http.Header{})
 			continue
 		}
@@ -564,7 +596,7 @@ func (s *Server) handleRequest(ctx context.Context, req *Request) (*response, ht
 			"Method not found in request",
 			zap.String("method", log.SanitizeString(req.Method)),
 		)
-		if req.ID == nil {
+		if req.isNotification() {
 			// The server MUST NOT reply to a notification, not even with an error
 			// (JSON-RPC 2.0, section 4.1).
 			return nil, header, nil
@@ -578,7 +610,7 @@ func (s *Server) handleRequest(ctx context.Context, req *Request) (*response, ht
 	args, err := s.buildArguments(ctx, req.Params, calledMethod)
 	if err != nil {
 		s.logger.Trace("Error building arguments for RPC call", zap.Error(err))
-		if req.ID == nil {
+		if req.isNotification() {
 			// notification: no reply, see above
 			return nil, header, nil
 		}
@@ -595,14 +627,14 @@ func (s *Server) handleRequest(ctx context.Context, req *Request) (*response, ht
 			zap.String("method", log.SanitizeString(req.Method)),
 			zap.Any("panic", panicValue),
 		)
-		if res.ID == nil { // notification
+		if req.isNotification() {
 			return nil, header, nil
 		}
 		res.Error = Err(InternalError, "handler panicked")
 		s.listener.OnRequestFailed(req.Method, res.Error)
 		return res, header, nil
 	}
-	if res.ID == nil { // notification
+	if req.isNotification() {
 		s.logger.Trace("Notification received, no response expected")
 		return nil, header, nil
 	}
